@@ -198,6 +198,10 @@ func (e *Explorer) report(x *Exec) {
 	e.Violations = append(e.Violations, v)
 }
 
+// StopRequested, when set to a non-zero value (by the worker's memory watchdog), ends the search like an expired
+// deadline: what was explored so far is reported and the run is marked incomplete.
+var StopRequested int32
+
 // Explore runs the search. It returns true if the search completed within the deadline.
 //
 //go:norace
@@ -311,7 +315,7 @@ func (e *Explorer) exploreNode(x *Exec, plen int, depth int) {
 				}
 				e.visited[k] = rem
 			}
-			if !e.Deadline.IsZero() && time.Now().After(e.Deadline) {
+			if (!e.Deadline.IsZero() && time.Now().After(e.Deadline)) || StopRequested != 0 {
 				e.timedOut = true
 				return
 			}
